@@ -9,6 +9,58 @@ from . import build
 _G = None
 
 
+class _Ext:
+    """Transparent proxy around the extension module, its classes and their instances, as the *harness* sees them (the
+    library's own Python layer keeps using the real objects).  It only marks exceptions that come out of the extension
+    (`_from_extension`), so that one which no check anticipated can be told from a fault of the harness itself
+    (core.library_raised)."""
+    __slots__ = ("_o",)
+
+    def __init__(self, o):
+        object.__setattr__(self, "_o", o)
+
+    def __getattr__(self, name):
+        return _ext_wrap(getattr(object.__getattribute__(self, "_o"), name))
+
+    def __setattr__(self, name, value):
+        setattr(object.__getattribute__(self, "_o"), name, value)
+
+    def __call__(self, *a, **k):
+        a = tuple(_ext_unwrap(x) for x in a)
+        k = {n: _ext_unwrap(v) for n, v in k.items()}
+        try:
+            r = object.__getattribute__(self, "_o")(*a, **k)
+        except BaseException as e:  # noqa: BLE001
+            try:
+                e._from_extension = True
+            except Exception:  # noqa: BLE001
+                pass
+            raise
+        return _ext_wrap_result(r)
+
+    def __repr__(self):
+        return repr(object.__getattribute__(self, "_o"))
+
+
+_EXT_CLASSES = set()
+
+
+def _ext_unwrap(x):
+    return object.__getattribute__(x, "_o") if isinstance(x, _Ext) else x
+
+
+def _ext_wrap(v):
+    if isinstance(v, type) and issubclass(v, BaseException):
+        return v
+    if callable(v):
+        return _Ext(v)
+    return v
+
+
+def _ext_wrap_result(r):
+    return _Ext(r) if type(r) in _EXT_CLASSES else r
+
+
 def load():
     """Import gufo.snmp built from the current tree (once per process)."""
     global _G
@@ -22,7 +74,11 @@ def load():
     from gufo.snmp import async_client, sync_client
     G = types.SimpleNamespace()
     G.pkg = g
-    G.fast = _fast
+    for v in vars(_fast).values():
+        if isinstance(v, type) and not issubclass(v, BaseException):
+            _EXT_CLASSES.add(v)
+    G.fast = _Ext(_fast)
+    G.fast_real = _fast
     G.user = user
     G.sync = sync_client
     G.aio = async_client
